@@ -124,6 +124,7 @@ type c16Case struct {
 	thrPan  atomic.Value
 	ready   bool
 	stuck   bool // Status does not answer any more
+	pending chan string // an inject that has not returned (yet)
 	mu      sync.Mutex
 }
 
@@ -153,6 +154,22 @@ func (g *c16Gate) Run(instanceID string, vs parser.Scope, is map[string]interfac
 	return nil, nil
 }
 func (g *c16Gate) DocString() (string, error) { return "gate", nil }
+
+// x.spin(): true (after a short nap) as long as the case it is called in lasts
+type c16Spin struct{}
+
+func (g *c16Spin) Run(instanceID string, vs parser.Scope, is map[string]interface{}, tid uint64, args []interface{}) (interface{}, error) {
+	root := vs
+	for root.Parent() != nil {
+		root = root.Parent()
+	}
+	if _, ok := c16Cases.Load(root); !ok {
+		return false, nil
+	}
+	time.Sleep(200 * time.Microsecond)
+	return true, nil
+}
+func (g *c16Spin) DocString() (string, error) { return "spin", nil }
 
 func (c *c16Case) start(tid uint64, name, src string) {
 	erp := interpreter.NewECALRuntimeProvider(name, nil, &memLog{})
@@ -242,6 +259,10 @@ func (c *c16Case) quiesce() bool {
 			tids = append(tids, t)
 		}
 		c.mu.Unlock()
+		// the evaluation of a pending inject runs as thread 999: it counts while it is under way
+		if e, ok := tt["999"]; ok && e["threadRunning"] != false && c.evaluating() {
+			all = false
+		}
 		for _, t := range tids {
 			if c.isDone(t) {
 				continue
@@ -447,12 +468,41 @@ func (c *c16Case) end() {
 }
 
 // evalBit: does the expression of an `inject` line evaluate without error (the way InjectValue evaluates it)
+//
+//	1 / 0 : evaluates without / with an error (measured by evaluating it the way InjectValue does)
+//	V     : calls a function declared by the debugged program, which reports to the debugger (not
+//	        pre-evaluated: as thread 999 it would itself stop at break points)
+//	B     : as V, but the function runs into an active break point (or break-on-start is set):
+//	        the evaluation stops there as thread 999 and the command does not return
+//	D     : does not return while the case lasts (a loop over x.spin())
 func (c *c16Case) evalBit(line string) string {
 	f := strings.Fields(line)
 	if len(f) < 4 || f[0] != "inject" || !c.gsGiven {
 		return "0"
 	}
 	expr := strings.Join(f[3:], " ")
+	if strings.Contains(expr, "x.spin(") {
+		return "D"
+	}
+	for fn, lines := range map[string][]string{"f3(": {"nest:2", "nest:3"}, "f1(": {"nest:10", "nest:11", "nest:6", "nest:7", "nest:2", "nest:3"}} {
+		if !strings.Contains(expr, fn) {
+			continue
+		}
+		if _, defined, _ := c.gs.GetValue(strings.TrimSuffix(fn, "(")); !defined {
+			break // an unknown function: an ordinary error, measured below
+		}
+		st, _ := c.dbg.Status().(map[string]interface{})
+		if st["breakonstart"] == true {
+			return "B"
+		}
+		bps, _ := st["breakpoints"].(map[string]bool)
+		for _, l := range lines {
+			if bps[l] {
+				return "B"
+			}
+		}
+		return "V"
+	}
 	ok := false
 	func() {
 		defer func() {
@@ -474,6 +524,59 @@ func (c *c16Case) evalBit(line string) string {
 		return "1"
 	}
 	return "0"
+}
+
+// commandAsync issues a line that is expected not to return while the case lasts (`inject` of an
+// expression that does not return): EVAL if it has indeed not returned after a short while,
+// otherwise the class of its reply. The debugger has to answer the following steps meanwhile.
+func (c *c16Case) commandAsync(line string, wait999 bool) string {
+	ch := make(chan string, 1)
+	go func() {
+		defer func() {
+			if e := recover(); e != nil {
+				ch <- "PANIC"
+			}
+		}()
+		_, err := c.dbg.HandleInput(line)
+		if err != nil {
+			ch <- "error"
+			return
+		}
+		ch <- "ok"
+	}()
+	deadline := time.Now().Add(20 * time.Second)
+	for wait999 && time.Now().Before(deadline) {
+		// the evaluation stops at a break point as thread 999
+		tt := c.threadTable()
+		if tt == nil {
+			break
+		}
+		if e, ok := tt["999"]; ok && e["threadRunning"] == false {
+			break
+		}
+		time.Sleep(100 * time.Microsecond)
+	}
+	select {
+	case r := <-ch:
+		return r
+	case <-time.After(150 * time.Millisecond):
+		c.pending = ch
+		return "EVAL"
+	}
+}
+
+// evaluating: an `inject` issued earlier has still not returned
+func (c *c16Case) evaluating() bool {
+	if c.pending == nil {
+		return false
+	}
+	select {
+	case <-c.pending:
+		c.pending = nil
+		return false
+	default:
+		return true
+	}
 }
 
 // command issues one line with a time bound; the class of the reply
@@ -565,7 +668,12 @@ func c16Exec(scn string, gsGiven bool, lines []string, rec []c16Step, obs0 strin
 			}
 		} else {
 			st.bit = c.evalBit(ln)
-			cl := c.command(ln)
+			var cl string
+			if st.bit == "D" || st.bit == "B" {
+				cl = c.commandAsync(ln, st.bit == "B")
+			} else {
+				cl = c.command(ln)
+			}
 			// Scope.SetValue on a container path is C05's domain: ok and error are not told apart
 			if f := strings.Fields(ln); len(f) >= 4 && f[0] == "inject" && strings.Contains(f[2], ".") && (cl == "ok" || cl == "error") {
 				cl = "E"
@@ -879,6 +987,15 @@ func c16Gen(g *Gen) {
 	emit("nest1", true, "break nest:2", "cont 1 stepover", "break prog:1", "status", "describe 1")
 	emit("nest3", true, "break nest:3", "cont 1 stepout", "rmbreak nest", "status")
 	emit("top", true, "break prog:6", "cont 1 stepover", "cont 1 stepover", "!release", "break prog:1", "status")
+	// inject expressions that call back into the debugger or do not return: the debugger keeps
+	// answering (InjectValue must not hold the debugger's lock while it evaluates)
+	for _, scn := range []string{"nest1", "nest2", "stepbp1"} {
+		emit(scn, true, "inject 1 p f3(1)", "status", "describe 1", "break prog:1")
+		emit(scn, true, "inject 1 p for x.spin() { }", "status", "break prog:1", "rmbreak prog", "describe 1", "inject 1 p 1+1", "lockstate", "cont 1 stepover", "status")
+	}
+	emit("top", true, "inject 1 a for x.spin() { }", "status", "disablebreak prog:3", "extract 1 a dst", "describe 1")
+	emit("nest2", true, "inject 1 p f1(1)", "status", "break prog:1", "describe 999", "cont 999 resume", "status")
+	emit("nest1", true, "breakonstart", "inject 1 p f3(1)", "status", "describe 999", "rmbreak nest", "cont 999 stepover", "status")
 	// commands from two goroutines at once
 	nconc := 3
 	if g.Thorough() {
@@ -1112,6 +1229,9 @@ func init() {
 		Setup: func() {
 			xPkgOnce.Do(func() { stdlib.AddStdlibPkg("x", "verification harness functions") })
 			if err := stdlib.AddStdlibFunc("x", "gate", &c16Gate{}); err != nil {
+				panic(err)
+			}
+			if err := stdlib.AddStdlibFunc("x", "spin", &c16Spin{}); err != nil {
 				panic(err)
 			}
 			registerX("inf", func(args []interface{}) (interface{}, error) { return math.Inf(1), nil })
